@@ -242,7 +242,7 @@ impl Prop for C08 {
     const PART: &'static str = "histories-and-faults";
     const RULE: &'static str = "enumerated: every call sequence of length <= 4 (quick) / 6 (thorough) over {setup(P1), setup(P2), construct_roadmap, set_problem_definition(P2), solve} per planner on two base worlds (RV2, SE2); every k < 12 for 'uniform sampler fails at its k-th call' and 'goal sampler fails at its k-th call' per planner; goal bias in {-0.1, 1+ulp, 1.5, NaN, +-inf}; empty start list; negative / NaN / zero step and radius; zero-sample roadmaps. Random: generated worlds with histories of up to 10 ops and the same fault kinds. Reference model of the API state gives the set of acceptable results per call; every call runs under catch_unwind. Non-trivial = history containing a misuse op, a sampler fault that was actually reached, an out-of-range parameter or an empty start list.";
     fn random_cases(tier: Tier) -> usize {
-        tier.pick(4_000, 80_000)
+        tier.pick(8_000, 80_000)
     }
     fn gen(ch: &mut Ch, _tier: Tier) -> PlanCase {
         let prof = Profile {
@@ -432,7 +432,7 @@ impl Prop for C08WellFormed {
     const PART: &'static str = "well-formed-never-panics";
     const RULE: &'static str = "the planner-case generators of C01-C05 and C07 (well-formed worlds, parameters in range, histories that start with setup) run unchanged; any unwinding is a violation. Non-trivial = a case whose solve ran at least one iteration.";
     fn random_cases(tier: Tier) -> usize {
-        tier.pick(4_000, 80_000)
+        tier.pick(8_000, 80_000)
     }
     fn gen(ch: &mut Ch, _tier: Tier) -> PlanCase {
         let prof = Profile {
